@@ -48,6 +48,7 @@ func parseConfig(s string) Config {
 
 // Program is the resolved, type-checked program in SSA form.
 type Program struct {
+	initev  *initEval // constant evaluation of package initialisation (initeval.go), built on demand
 	Repo    string
 	Cfg     Config
 	Fset    *token.FileSet
